@@ -44,6 +44,10 @@ class SimCredentials(ga_credentials.Credentials):
         self.n = 0
         self.token = "sim-token-0"
 
+    def get_cred_info(self):
+        # what service-account / ADC credentials report (google-auth >= 2.35); emitted clients add it to auth errors
+        return {"credential_source": "/sim/key.json", "credential_type": "service account credentials", "principal": "sim@example.iam.invalid"}
+
     def refresh(self, request):
         self.n += 1
         self.token = f"sim-token-{self.n}"
@@ -319,6 +323,8 @@ class Run:
                 ch = simgrpc.SimChannel(self.sim)
                 self.channels[key] = ch
                 tr = svc["grpc"](channel=ch, host="sim.invalid")
+                if self.sc.get("credentials") == "refreshable":
+                    tr._credentials = SimCredentials(self.sim)      # as if the transport had been built from credentials
                 self.clients[key] = svc["sync"](transport=tr)
         self._last_key = key
         return self.clients[key]
@@ -330,6 +336,8 @@ class Run:
             ch = simgrpc.SimAioChannel(self.sim)
             self.channels[key] = ch
             tr = svc["grpc_asyncio"](channel=ch, host="sim.invalid")
+            if self.sc.get("credentials") == "refreshable":
+                tr._credentials = SimCredentials(self.sim)
             self.clients[key] = svc["async"](transport=tr)
         self._last_key = key
         return self.clients[key]
